@@ -171,6 +171,33 @@ def body(ck):
         (_, gq) = SAC.q_loss_grad((q1, q2), sbuf, jnp.zeros(B))
         if len(jax.tree.leaves(gq)) != len(jax.tree.leaves(eqx.filter((q1, q2), eqx.is_inexact_array))):
             ck.violations.append(Violation("impl-violates-property", "C07/SAC/q-grad-structure", "q_loss_grad does not differentiate exactly the online critic pair", case=ck.current_case))
+    # ---- targets are constants for optimisation, through EVERY public update entry point of DQN (train() of the off-policy API,
+    #      dqn_train() with an explicit target): with observations acted on in S0 and successor observations in a disjoint set S1,
+    #      the entries Q(S1, .) occur only inside the bootstrap term, so a parameter update must leave them bit-identical
+    for idx in range(6 if quick else 40):
+        m = int(rng.integers(1, 4)); NO = m + int(rng.integers(1, 4)); NA = int(rng.integers(2, 5)); B = int(rng.integers(2, 7))
+        gamma = float(rng.choice([0.5, 1.0, 0.75]))
+        rows = [(int(rng.integers(0, m)), int(rng.integers(m, NO)), int(rng.integers(0, NA)), dy(-8, 8, 4), False, False) for _ in range(B)]
+        qt = [[dy(-8, 8, 2) for _ in range(NA)] for _ in range(NO)]
+        online = StubQ(qt)
+        buf = fill(Discrete(NO), Discrete(NA), rows, None)
+        algo = DQN(buffer_size=B, learning_starts=B, num_envs=1, num_steps=1, batch_size=B, gamma=gamma, learning_rate=0.125)
+        ck.current_case = {"kind": "dqn-update", "rows": rows, "gamma": gamma, "q": qt}
+        opt0 = algo.optimizer.init(eqx.filter(online, eqx.is_inexact_array))
+        for entry, call in (("DQN.train", lambda: algo.train(online, opt0, buf, key=jr.key(idx))),
+                            ("DQN.dqn_train(target=online)", lambda: algo.dqn_train(online, opt0, buf, online, key=jr.key(idx))),
+                            ("DQN.dqn_train(target=other)", lambda: algo.dqn_train(online, opt0, buf, StubQ([[x + 1.0 for x in r] for r in qt]), key=jr.key(idx)))):
+            new_pol = call()[0]
+            before, after = np.asarray(online.QT), np.asarray(new_pol.QT)
+            moved_bootstrap = bool(np.any(before[m:] != after[m:]))
+            moved_taken = bool(np.any(before[:m] != after[:m]))
+            ck.count("dqn_update_probes"); ck.evaluations += 1
+            ck.case_seen(("upd", idx, entry) if moved_taken else None)
+            if moved_bootstrap:
+                ck.violations.append(Violation("impl-violates-property", "C07/DQN/update-moves-bootstrap-values",
+                                               f"{entry}: a parameter update changed Q-values that occur only inside the bootstrap term of the target (gradient reaches the target)",
+                                               case={"entry": entry, "rows[obs,next_obs,action,reward,done,timeout]": rows, "gamma": gamma, "q_before": before.tolist(), "q_after": after.tolist(),
+                                                     "successor_only_observations": list(range(m, NO))}))
     # ---- end to end: what the real collector stores feeds the real loss (the two sites that must cooperate)
     from lerax.callback import CallbackList
     from harness.stubs import TabEnv, TabPolicy, build_stack, chain_tab, path_lit, ptab_lit, random_ptab, tab_lit, wd_lit
